@@ -297,6 +297,53 @@ pub fn field_mutations(base: &[u8], full16: bool) -> Vec<Mutn> {
     out
 }
 
+/// Chain-cell corruptions with a small value alphabet (first cells, neighbours, END, FREE):
+/// the building blocks of rings, tails running into rings, and cross-linked chains, which
+/// need two cells to be wrong at once.
+pub fn chain_mutations(base: &[u8]) -> Vec<Mutn> {
+    let mut out = Vec::new();
+    let p = match spec::parse(base) {
+        Ok(p) => p,
+        Err(_) => return out,
+    };
+    let cells = p.sector_len / 4;
+    let nsec = p.num_sectors;
+    let p32 = |o: usize, v: u32| Mutn::Patch(vec![(o, v.to_le_bytes().to_vec())]);
+    let small = |own: u32, n: u32| {
+        let mut v = vec![0u32, 1, 2, 3, own.wrapping_add(1), own.wrapping_sub(1), n.wrapping_sub(1), 0xFFFF_FFFE, 0xFFFF_FFFF];
+        v.sort();
+        v.dedup();
+        v.retain(|&x| x != own);
+        v
+    };
+    for i in 0..(nsec as usize + 1).min(p.fat.len()) {
+        let o = p.sector_off(p.fat_sectors[i / cells]) + 4 * (i % cells);
+        for v in small(p.fat[i], nsec) {
+            out.push(p32(o, v));
+        }
+    }
+    let mini_count = (p.dir[0].size / 64) as usize;
+    for i in 0..(mini_count + 1).min(p.minifat.len()) {
+        let o = p.sector_off(p.minifat_sectors[i / cells]) + 4 * (i % cells);
+        for v in small(p.minifat[i], mini_count as u32) {
+            out.push(p32(o, v));
+        }
+    }
+    let per = p.sector_len / 128;
+    for (i, e) in p.dir.iter().enumerate() {
+        if e.obj_type == 0 {
+            continue;
+        }
+        let o = p.sector_off(p.dir_sectors[i / per]) + (i % per) * 128;
+        for v in [0u32, 1, 2, 3] {
+            if v != e.start {
+                out.push(p32(o + 116, v));
+            }
+        }
+    }
+    out
+}
+
 /// Field-agnostic sweep: every aligned 32-bit word x the value alphabet.
 pub fn word_mutations(base: &[u8], data_too: bool) -> Vec<Mutn> {
     let mut out = Vec::new();
@@ -641,6 +688,12 @@ pub struct CaseSpace {
 
 impl CaseSpace {
     pub fn build(base_id: &str, thorough: bool, pairs: bool) -> Option<CaseSpace> {
+        if let Some(inner) = base_id.strip_prefix("chains:") {
+            // all pairs of chain-cell corruptions (FAT cells, MiniFAT cells, start sectors) of `inner`
+            let (_, base, _) = bases(thorough).into_iter().find(|b| b.0 == inner)?;
+            let pair_list = chain_mutations(&base);
+            return Some(CaseSpace { base, singles: Vec::new(), pair_list });
+        }
         let (_, base, full) = bases(thorough).into_iter().find(|b| b.0 == base_id)?;
         let singles = mutations(&base, full, base_id == "fresh-v3" || base_id == "mixed-v4");
         let pair_list = if pairs {
